@@ -12,6 +12,6 @@ open(f,'w').write(s.replace(old,new,1))
 PY
 [ $? -eq 0 ] || { cp /tmp/mut_backup.go "$f"; exit 9; }
 (cd /repo && GOFLAGS=-mod=mod GOPROXY=off go build ./... ) || { echo "MUTANT DOES NOT BUILD"; cp /tmp/mut_backup.go "$f"; exit 9; }
-cd /verif && timeout ${MUT_TIMEOUT:-900} ./check "$4" "${5:-quick}" 2>&1 | grep -E "VIOLATION|violated|^OK|SPURIOUS|VACUOUS|ERROR|INCOMPLETE|KNOWN" | head -${MUT_LINES:-8}
+cd /verif && VP_BUDGET=${VP_BUDGET:-60} timeout ${MUT_TIMEOUT:-900} ./check "$4" "${5:-quick}" 2>&1 | grep -E "VIOLATION|violated|^OK|SPURIOUS|VACUOUS|ERROR|INCOMPLETE|KNOWN" | head -${MUT_LINES:-8}
 cp /tmp/mut_backup.go "$f"
 git -C /repo status --short
